@@ -84,11 +84,22 @@ def gen(seed, tier):
         t = H.gen_tree(rng, d, n, (1, 2, -3, 7, 0), dflt)
         kind = "owned" if d >= 2 or rng.random() < 0.5 else "free"
         length = rng.choice([3, 6, 10]) if tier == "quick" else rng.choice([5, 12, 40])
+        ops = gen_ops(rng, d, n, length)
+        # configuration that must not matter to point access: per-rank formats (not together with fiber
+        # assignment, which copies what an uncompressed source PRESENTS, explicit defaults included), a
+        # declared shape, fibers built with their own default 0 inside a tensor of another default
+        r4 = rng.random()
+        cfg = {}
+        if r4 < 0.25:
+            cfg = {"shape": [n + rng.randrange(1, 3)] * d}
+            if not any(o["k"] == "assignp" for o in ops):
+                cfg["fmt"] = [rng.choice("CU") for _ in range(d)]
+        elif r4 < 0.4:
+            cfg = {"fib0": True}
         yield {"prop": PROP, "op": "points", "d": d, "dflt": dflt, "t": t, "kind": kind,
                # the same default handed over as a float (7.0): defaults of other scalar types take other
                # code paths when they are copied / boxed
-               "fdflt": rng.random() < 0.2,
-               "ops": gen_ops(rng, d, n, length),
+               "fdflt": rng.random() < 0.2, "cfg": cfg, "ops": ops,
                "srcs": {str(ln): H.gen_tree(rng, d - ln, n, (1, 2, -3, 7, 0), dflt) for ln in range(1, d)}}
 
 
@@ -142,10 +153,15 @@ def run(case):
     d, dflt = case["d"], case["dflt"]
     if case.get("fdflt"):
         dflt = float(dflt)
-    root = H.build_fiber(case["t"], d, dflt)
+    cfg = case.get("cfg") or {}
+    owned = case["kind"] == "owned"
+    root = H.build_fiber(case["t"], d, 0 if (owned and cfg.get("fib0") and not case.get("fdflt")) else dflt)
     tensor = None
-    if case["kind"] == "owned":
-        tensor = ft.Tensor.fromFiber(rank_ids=[f"R{d - 1 - k}" for k in range(d)], fiber=root, default=dflt)
+    if owned:
+        ids = [f"R{d - 1 - k}" for k in range(d)]
+        tensor = ft.Tensor.fromFiber(rank_ids=ids, fiber=root, default=dflt, shape=cfg.get("shape"))
+        for rid, fm in zip(ids, cfg.get("fmt", [])):
+            tensor.setFormat(rid, fm)
         root = tensor.getRoot()
     acc = tensor if tensor is not None else root
     obs, side = [], {}
